@@ -430,6 +430,10 @@ def run(chk):
             chk.violation({"kind": "property-fails-on-implementation", "why": "generation 2 and generation 3 differ", "input": inp,
                            "argv": ["qpdf"] + opts, "exits": rcs}, signature=sig)
     chk.count("fixpoint-gen2-gen3", n_fp, fp_nt, samples=[{"input": os.path.basename(fp_jobs[0][0]), "opts": fp_jobs[0][1]}])
+    # ---- three generations of the plain static-id writer: real qpdf vs the extracted model pipeline (write_doc, fx_doc_of_file),
+    # byte for byte (harness/c09fix.py; theorems gen2_eq_gen3_plain, gen1_eq_gen2_plain in coq/Sys/C09ProofsB.v)
+    import c09fix
+    c09fix.run_part(chk, wd, runner)
     if tie:
         chk.violation({"kind": "correspondence-broken", "correspondence": "corr:C09:static-id-iv", "differing_cases": len(tie), "first_cases": tie[:3]}, no_input=True)
 
